@@ -242,9 +242,14 @@ func (e *vEnv) run(idx int, gen string, params map[string]interface{}, body func
 		func() {
 			defer func() {
 				if r := recover(); r != nil {
+					st := debug.Stack()
 					cs.verdict = "violation"
 					cs.kind = "panic"
-					cs.detail = fmt.Sprintf("%v\n%s", r, vTrimStack(debug.Stack()))
+					if vPanicInHarness(st) {
+						// the panic was raised by harness code itself, not by the code under test
+						cs.kind = "harness-panic"
+					}
+					cs.detail = fmt.Sprintf("%v\n%s", r, vTrimStack(st))
 					cs.kfid = ""
 				}
 			}()
@@ -278,6 +283,24 @@ func (e *vEnv) run(idx int, gen string, params map[string]interface{}, body func
 		defer e.wg.Done()
 		work()
 	}()
+}
+
+// vPanicInHarness: is the frame that panicked (the first frame below the runtime's
+// panic entries) a harness file?
+func vPanicInHarness(stack []byte) bool {
+	lines := strings.Split(string(stack), "\n")
+	for i := 0; i+1 < len(lines); i++ {
+		if strings.HasPrefix(lines[i], "panic(") {
+			// skip further runtime frames (runtime.goPanicIndex etc.)
+			for j := i + 2; j+1 < len(lines); j += 2 {
+				if strings.HasPrefix(lines[j], "runtime.") || strings.HasPrefix(lines[j], "panic(") {
+					continue
+				}
+				return strings.Contains(lines[j+1], "zz_verif_")
+			}
+		}
+	}
+	return false
 }
 
 func vTrimStack(b []byte) string {
